@@ -36,17 +36,14 @@ TRUSTED.append(
     "clause of the oracle and the registry dumps are compared as for any other handler")
 ASSUMPTIONS = ["handlers do not assign and do not raise while being notified (re-entrant registry calls are covered)"]
 RULE = ("random classes with 2-4 Observables / ObservableLists split over 1-3 classes of an inheritance chain, in 3/10 of the chains a base class defines one of the names again (overridden: the most derived definition is in effect), random orders of "
-        "the signal-type sets, 2-6 handlers (functions and bound methods, some dropped; in 3/10 of the scenarios the owners of the bound methods are value objects with an __eq__ by recorded signals - equal owners, different handlers - and at least two of them (not combined with calling handlers while finding G13b is open); in 1/4 of the scenarios 1-2 handlers make 1-2 registry calls - unobserve of themselves or of others, clear_all, observe of a passive handler - whenever they are called), 6-28 ops from observe/unobserve (name "
+        "the signal-type sets, 2-6 handlers (functions and bound methods, some dropped; in 3/10 of the scenarios the owners of the bound methods are value objects with an __eq__ by recorded signals - equal owners, different handlers - and at least two of them; in 1/4 of the scenarios 1-2 handlers make 1-2 registry calls - unobserve of themselves or of others, clear_all, observe of a passive handler - whenever they are called), 6-28 ops from observe/unobserve (name "
         "or All x type or All, incl. invalid ones), clear_all, drop, assignment (of fresh items or of another list of the object) and all list mutations with in-range, negative "
         "and out-of-range indices, extend / += from an iterable that raises after some items, slices with open / negative / out-of-range bounds and steps -3..3 (0 and wrong item counts are rejected); non-trivial = at least 3 signals delivered and at least one All subscription")
 
 
-# open findings (known_findings.d/C16.txt).  G13b: a handler with value-equal owner that unsubscribed while notified is called
-# again in the same round; only the witness (the generator keeps `veq` and `prog:` apart while it is open, S.VEQ_WITH_PROGS)
-KNOWN = {
-    "G13b": {"scenario": S.G13B_WITNESS,
-             "matches": lambda sc, clause: clause.startswith("delivery:") and "veq" in sc.lines[0].split() and "prog:" in sc.lines[0]},
-}
+# G13b (a handler with a value-equal owner that unsubscribed while notified was called again in the same round) is repaired:
+# its witness is corpus/C16/G13b-equal-owner-renotified.ops
+KNOWN = {}
 
 
 def generate(rng, tier, count):
